@@ -18,7 +18,7 @@
    struct copy made by AddMPTBatch shares the refcount map and the interior nodes with the module's trie).  On
    histories without dropped blocks the two are the same function ([C11_before_fix_same_without_drops]). *)
 From NG Require Import Common.Tactics TrieRC.Model TrieRC.AList TrieRC.Pointwise TrieRC.Slots TrieRC.Proofs
-  TrieRC.Read TrieRC.Harmless TrieRC.Theorems.
+  TrieRC.Read TrieRC.Harmless TrieRC.Theorems TrieRC.Concrete.
 Open Scope Z_scope.
 
 (* ModeLatest: after every committed block (any prefix of any history) the table is exactly
@@ -117,6 +117,67 @@ Theorem C11_flush_order_irrelevant : forall m idx todo1 todo2 rc tbl r1 t1 r2 t2
   forall h, lookup r1 h = lookup r2 h /\ lookup t1 h = lookup t2 h.
 Proof. exact flush_order_irrelevant. Qed.
 Print Assumptions C11_flush_order_irrelevant.
+
+(* ================= the interface hypothesis discharged against the concrete trie of C10 =================
+   TrieRC/Concrete.v: [put_trace], [delete_trace], [put_batch_trace] list the addRef/removeRef calls of Trie.Put,
+   Trie.Delete and Trie.PutBatch with the placements of trie.go / batch.go, over the model of coq/Trie/Model.v and an
+   arbitrary hash function H; [cn H h t] counts the stored nodes of t whose hash is h ([nodes]); [abs H t] is the
+   abstract tree a concrete trie denotes. *)
+
+(* Put: the calls net to the change of occurrences (nodes off the path are shared and untouched) *)
+Theorem C11_put_refs_net : forall (H : Trie.Model.bytes -> Trie.Model.bytes) t p v,
+  keys_ok t -> Trie.Model.path_ok p ->
+  forall h, net h (put_trace H t p v) = cn H h (Trie.Model.put t p v) - cn H h t.
+Proof. exact put_trace_net. Qed.
+Print Assumptions C11_put_refs_net.
+
+Theorem C11_delete_refs_net : forall (H : Trie.Model.bytes -> Trie.Model.bytes) t p,
+  forall h, net h (delete_trace H t p) = cn H h (Trie.Model.delete t p) - cn H h t.
+Proof. exact delete_trace_net. Qed.
+Print Assumptions C11_delete_refs_net.
+
+(* PutBatch (what a block does): mergeExtension, stripBranch, addToBranch, newSubTrieMany, putBatchInto* *)
+Theorem C11_put_batch_refs_net : forall (H : Trie.Model.bytes -> Trie.Model.bytes) t kv,
+  keys_ok t -> forall h, net h (put_batch_trace H t kv) = cn H h (Trie.Model.put_batch t kv) - cn H h t.
+Proof. exact put_batch_trace_net. Qed.
+Print Assumptions C11_put_batch_refs_net.
+
+(* the abstract tree has the occurrence counts of the concrete trie *)
+Theorem C11_abstraction_counts : forall (H : Trie.Model.bytes -> Trie.Model.bytes) h t, occT h (abs H t) = cn H h t.
+Proof. exact occ_abs. Qed.
+Print Assumptions C11_abstraction_counts.
+
+(* hence [evs_ok] — the hypothesis of every theorem above — holds for EVERY history of committed blocks, dropped
+   blocks, GC passes and Collapse calls whose blocks are sequences of Put / Delete / PutBatch on the concrete trie
+   with well-formed arguments (nibble paths; batches sorted and duplicate-free as MapToMPTBatch builds them) *)
+Theorem C11_interface_discharged : forall (H : Trie.Model.bytes -> Trie.Model.bytes) l t n,
+  Trie.Model.NF t -> cevs_wf n l -> evs_ok (fun h => h) true (abs H t) (abs H t) n (cevs H t l).
+Proof. exact cevs_ok. Qed.
+Print Assumptions C11_interface_discharged.
+
+(* latest_exact and gc_mode_exact without any hypothesis about reference counting *)
+Theorem C11_latest_exact_concrete : forall (H : Trie.Model.bytes -> Trie.Model.bytes) l, cevs_wf 0 l ->
+  exists s, run true MLatest init (cevs H Trie.Model.Empty l) = Some s /\
+    forall h, lookup (s_tbl s) h =
+              if 0 <? cn H h (cfinal Trie.Model.Empty l) then Some (mkE h true (cn H h (cfinal Trie.Model.Empty l))) else None.
+Proof. exact latest_exact_concrete. Qed.
+Print Assumptions C11_latest_exact_concrete.
+
+Theorem C11_gc_mode_exact_concrete : forall (H : Trie.Model.bytes -> Trie.Model.bytes) l, cevs_wf 0 l ->
+  exists s, run true MGC init (cevs H Trie.Model.Empty l) = Some s /\
+    s_com s = abs H (cfinal Trie.Model.Empty l) /\
+    gc_exact (fun h => h) (hist (cevs H Trie.Model.Empty l)) (gmax (cevs H Trie.Model.Empty l)) (s_n s) (s_tbl s).
+Proof. exact gc_mode_exact_concrete. Qed.
+Print Assumptions C11_gc_mode_exact_concrete.
+
+Example C11_concrete_example :
+  cevs_wf 0 x_hist /\
+  cfinal Trie.Model.Empty x_hist = Trie.Model.Ext [1;2;3;5]%nat (Trie.Model.Leaf [7%N]) /\
+  match run true MGC init (cevs xH Trie.Model.Empty x_hist) with
+  | Some s => length (s_tbl s) = 10%nat /\ length (filter (fun e => e_active (snd e)) (s_tbl s)) = 2%nat
+  | None => False
+  end.
+Proof. split; [exact x_hist_wf|exact x_hist_run]. Qed.
 
 (* non-vacuity: a history satisfying the hypotheses in which a node occurs twice, leaves the trie at block 2, is
    kept by GC 1 and collected by GC 2, with a Load, a Collapse and a dropped block in between *)
